@@ -207,7 +207,7 @@ fn kinds_for(comp: &str) -> Vec<&'static str> {
         "sink.write" | "chunk.write" => vec!["other", "zero", "denied"],
         "create" => vec!["create:io", "create:fmt", "create:codec"],
         "merge" => vec!["merge"],
-        _ => vec!["other", "eof", "denied"],
+        _ => vec!["other", "eof", "denied", "timeout", "wouldblock"],
     }
 }
 
